@@ -76,6 +76,8 @@ type popBuilder struct {
 	free  map[string]bool // keys without a lock
 	regs  []*txnReg
 	kills int
+	// forceStart != 0: the next raw transaction uses this (older) start ts instead of a fresh one
+	forceStart uint64
 }
 
 // take picks n free keys: scattered, or (run=true) a run of neighbouring keys (lands in few regions).
@@ -188,6 +190,10 @@ func (b *popBuilder) add(shape string, n int, run bool) (bool, error) {
 	}
 	d := b.d
 	start := d.ts()
+	if b.forceStart != 0 {
+		// a late prewrite: the transaction took its start ts long ago
+		start, b.forceStart = b.forceStart, 0
+	}
 	primary := keys[b.rng.Intn(len(keys))]
 	t := &txnReg{Start: start, Primary: primary, Shape: shape}
 	ttl := b.ttl()
@@ -794,6 +800,7 @@ func scanLockTyped(u *uni.Universe, key string) bool {
 // one GC execution
 
 type gcCase struct {
+	Label   string // multi-call sessions: which call of which session
 	Backend string
 	Mode    string // gc | phase | range
 	Strict  bool
@@ -817,7 +824,7 @@ type gcCase struct {
 }
 
 func (c gcCase) String() string {
-	return fmt.Sprintf("%s/%s/strict=%v/keys=%d/txns=%d/regions=%d/limit=%d/rpt=%d/conc=%d/wide=%d/splits=%d/faults=%d%%/spmid=%v",
+	return c.Label + fmt.Sprintf("%s/%s/strict=%v/keys=%d/txns=%d/regions=%d/limit=%d/rpt=%d/conc=%d/wide=%d/splits=%d/faults=%d%%/spmid=%v",
 		c.Backend, c.Mode, c.Strict, c.NKeys, c.NTxns, c.Regions, c.Limit, c.RPT, c.Conc, c.Wide, c.Splits, c.Faults, c.SPMid) + func() string {
 		x := ""
 		if c.CutAt > 0 {
